@@ -397,8 +397,10 @@ def _match_known(known, ob):
 
 def write_evidence(pid, pc, tier, seed, results, extra, total_obs, violations, known_hits, wall, undecided, failed_names=()):
     os.makedirs(os.path.join(VERIF, 'evidence'), exist_ok=True)
-    n = len(total_obs)
-    discharged = n - len([x for x in failed_names if x in total_obs])
+    known_names = set(fl['ob'] for (_, fl) in known_hits)
+    claimed = dict((k, v) for k, v in total_obs.items() if k not in known_names)
+    n = len(claimed)
+    discharged = n - len([x for x in failed_names if x in claimed])
     functions = []
     rewrites = []
     trusted = set()
@@ -443,6 +445,7 @@ def write_evidence(pid, pc, tier, seed, results, extra, total_obs, violations, k
             bounded=bounded,
             not_covered=pc.get('not_covered', []),
             known_findings=[dict(obligation=k['obligation'], what=k['what']) for (k, _) in known_hits],
+            known_finding_obligations_excluded_from_count=len(known_names),
             undecided=undecided,
             exhaustive=False,
         ),
